@@ -381,7 +381,7 @@ func checkC07(c *Ctx) {
 		n := 0
 		for _, cs := range Calls(fn) {
 			f := Callee(cs.Common())
-			if f == nil || Origin(f).Name() != "move" {
+			if f == nil || NameOf(Origin(f)) != "move" {
 				continue
 			}
 			n++
@@ -393,7 +393,7 @@ func checkC07(c *Ctx) {
 					continue
 				}
 				if call, isCall := x.(*ssa.Call); isCall {
-					if cf := call.Call.StaticCallee(); cf != nil && cf.Name() == g.check {
+					if cf := call.Call.StaticCallee(); cf != nil && NameOf(cf) == g.check {
 						a := call.Call.Args
 						// from/to forwarded in order
 						if len(a) >= 2 && a[len(a)-2] == ssa.Value(fn.Params[1]) && a[len(a)-1] == ssa.Value(fn.Params[2]) {
@@ -427,7 +427,7 @@ func checkC07(c *Ctx) {
 			if IsNilConst(ret.Results[0]) {
 				moved := false
 				for _, cs := range Calls(fn) {
-					if f := Callee(cs.Common()); f != nil && Origin(f).Name() == "move" && (cs.Block() == b || cs.Block().Dominates(b)) {
+					if f := Callee(cs.Common()); f != nil && NameOf(Origin(f)) == "move" && (cs.Block() == b || cs.Block().Dominates(b)) {
 						moved = true
 					}
 				}
@@ -465,7 +465,7 @@ func checkC07(c *Ctx) {
 	if cf := anchor(c, pkgDeps+".checkFromToIndex"); cf != nil {
 		var calls []*ssa.Call
 		for _, cs := range Calls(cf) {
-			if f := Callee(cs.Common()); f != nil && f.Name() == "validateArrayIndex" {
+			if f := Callee(cs.Common()); f != nil && NameOf(f) == "validateArrayIndex" {
 				calls = append(calls, cs.Instr.(*ssa.Call))
 			}
 		}
@@ -518,7 +518,7 @@ func checkC07(c *Ctx) {
 				continue
 			}
 			call := cs.Instr.(*ssa.Call)
-			switch f.Name() {
+			switch NameOf(f) {
 			case "checkFromToIndex":
 				idxCall = call
 			case "UpperBound":
@@ -605,7 +605,7 @@ func checkC07(c *Ctx) {
 			for _, in := range res.Instrs {
 				if call, ok := in.(*ssa.Call); ok {
 					if f := call.Call.StaticCallee(); f != nil {
-						called = append(called, Origin(f).Name())
+						called = append(called, NameOf(Origin(f)))
 						a := call.Call.Args
 						if len(a) != 3 || unwrapCT(a[0]) != ssa.Value(mv.Params[0]) || a[1] != ssa.Value(mv.Params[1]) || a[2] != ssa.Value(mv.Params[2]) {
 							argsOK = false
@@ -675,7 +675,7 @@ func checkC07(c *Ctx) {
 						continue
 					}
 					nw++
-					if !r.allowed[Origin(fn).Name()] {
+					if !r.allowed[NameOf(Origin(fn))] {
 						bad = ShortName(fn) + " at " + c.Prog.Pos(in.Pos())
 					}
 				}
@@ -699,7 +699,7 @@ func checkC07(c *Ctx) {
 					continue
 				}
 				n++
-				if !allowed[fn.Name()] {
+				if !allowed[NameOf(fn)] {
 					bad = ShortName(fn) + " at " + c.Prog.Pos(cs.Pos())
 				}
 			}
@@ -718,7 +718,7 @@ func checkC07(c *Ctx) {
 			return cs.Common().Method.Name() == "setIndex"
 		}
 		f := Callee(cs.Common())
-		return f != nil && f.Name() == "setIndex"
+		return f != nil && NameOf(f) == "setIndex"
 	}, map[string]bool{"moveFwd": true, "moveBack": true, "newBlock": true})
 	callerRule("setAddr", func(cs CallSite) bool {
 		if !inDeps(cs) {
@@ -728,15 +728,15 @@ func checkC07(c *Ctx) {
 			return cs.Common().Method.Name() == "setAddr"
 		}
 		f := Callee(cs.Common())
-		return f != nil && f.Name() == "setAddr"
+		return f != nil && NameOf(f) == "setAddr"
 	}, map[string]bool{"moveFwd": true, "moveBack": true})
 	callerRule("move", func(cs CallSite) bool {
 		f := Callee(cs.Common())
-		return f != nil && inDeps(cs) && Origin(f).Name() == "move" && PkgPathOf(f) == ModulePath+"/"+pkgDeps
+		return f != nil && inDeps(cs) && NameOf(Origin(f)) == "move" && PkgPathOf(f) == ModulePath+"/"+pkgDeps
 	}, map[string]bool{"Move": true})
 	callerRule("moveFwd/moveBack", func(cs CallSite) bool {
 		f := Callee(cs.Common())
-		return f != nil && inDeps(cs) && (Origin(f).Name() == "moveFwd" || Origin(f).Name() == "moveBack")
+		return f != nil && inDeps(cs) && (NameOf(Origin(f)) == "moveFwd" || NameOf(Origin(f)) == "moveBack")
 	}, map[string]bool{"move": true})
 
 	// --- lookups
@@ -748,7 +748,7 @@ func checkC07(c *Ctx) {
 				for _, in := range b.Instrs {
 					if fa, ok := in.(*ssa.FieldAddr); ok {
 						if f := FieldOf(fa); f != nil && TypeNameIs(types.NewPointer(namedOfField(c, "Code")), types.TypeString(fa.X.Type(), nil)) {
-							switch f.Name() {
+							switch NameOf(f) {
 							case "blocks":
 								usesBlocks = true
 							case "blocksByAddr":
@@ -773,7 +773,7 @@ func checkC07(c *Ctx) {
 				if st, ok := in.(*ssa.Store); ok {
 					if fa, ok := st.Addr.(*ssa.FieldAddr); ok {
 						if f := FieldOf(fa); f != nil {
-							switch f.Name() {
+							switch NameOf(f) {
 							case "blocksByAddr":
 								byAddrVal = st.Val
 							case "blocks":
@@ -793,6 +793,39 @@ func checkC07(c *Ctx) {
 					}
 				}
 			}
+			// or filled slot by slot together with blocks: in one loop, slot i of
+			// both fresh slices (of the same length) receives the same block
+			lenArg := func(v ssa.Value) ssa.Value {
+				if ln, isLen := Unwrap(v).(*ssa.Call); isLen && len(ln.Call.Args) == 1 {
+					if bi, isB := ln.Call.Value.(*ssa.Builtin); isB && bi.Name() == "len" {
+						return ln.Call.Args[0]
+					}
+				}
+				return nil
+			}
+			if bms, isMake := blocksVal.(*ssa.MakeSlice); isMake && !ok && lenArg(ms.Len) != nil && lenArg(bms.Len) != nil && SameValue(lenArg(ms.Len), lenArg(bms.Len)) {
+				slotStores := func(arr ssa.Value) map[ssa.Value]ssa.Value { // index -> stored value
+					out := map[ssa.Value]ssa.Value{}
+					for _, r := range *arr.Referrers() {
+						if ia, isIA := r.(*ssa.IndexAddr); isIA && ia.X == arr && ia.Referrers() != nil {
+							for _, r2 := range *ia.Referrers() {
+								if st, isSt := r2.(*ssa.Store); isSt && st.Addr == ssa.Value(ia) {
+									out[ia.Index] = st.Val
+								}
+							}
+						}
+					}
+					return out
+				}
+				a, b := slotStores(ms), slotStores(bms)
+				for _, l := range RangeLoops(nc) {
+					if va, has := a[l.Key]; has && len(a) == 1 && len(b) == 1 && SameValue(va, b[l.Key]) && b[l.Key] != nil {
+						if SameValue(lenArg(ms.Len), l.Over) {
+							ok = true
+						}
+					}
+				}
+			}
 		}
 		c.Oblige("C07.lookup", ShortName(nc)+"/blocksByAddr-is-a-copy", c.Prog.FuncPos(nc), ok, "blocksByAddr must be an independent copy of blocks (a shared backing array would be permuted by block moves and break address lookup)")
 	}
@@ -801,7 +834,7 @@ func checkC07(c *Ctx) {
 		ok := false
 		for _, af := range ba.AnonFuncs {
 			for _, cs := range Calls(af) {
-				if f := Callee(cs.Common()); f != nil && f.Name() == "Begin" {
+				if f := Callee(cs.Common()); f != nil && NameOf(f) == "Begin" {
 					ok = true
 				}
 			}
